@@ -54,6 +54,14 @@ CHECKS = {
    text='IterFile.tla models evaluations, the saver as open/write/close/rename steps on the iteration file and its temporary file, a Crash enabled in every state and Restart; TLC checks FileComplete, FileBest, RestartSucceeds, NeverBelowStart, UpToDate over all evaluation sequences (improving, worsening, ties, non-finite) and crash points, and reports the three other saver variants (in place / best frozen) as violating; the real calculate_likelihood_and_derivatives runs under strace and the system calls on the files, interleaved with the evaluations, are validated step by step by IterFileTrace.tla; the run is repeated with the process killed at the entry of every relevant system call (strace fault injection), the surviving files are observed and a real restart in a fresh process must succeed and start from the saved values, all judged by the trace specification.',
    note='trusted: TLC, strace fault injection (a killed run that does not follow the dry run is skipped and counted); process crash, not power loss; for the 340-parameter model the restart stops once the optimiser has received its starting point',
    technique='TLA+ spec IterFile + TLC crash-point exploration, code->spec trace validation of strace logs with kill injection (IterFileTrace)', ref='5 C15'),
+ 'C09': dict(
+   text='PanelDraws.tla defines contiguity, the stable sort by individual, the individual map, the trajectory value as the product over exactly the rows of an individual and the Monte-Carlo mean of that product with the individual own r-th draw of each variable own series (draw table indexed by rank of the variable name), sample size = number of individuals; TLC checks MapSound/SortSound and enumerates every id sequence (unsorted, non-consecutive ids; contiguous or not) x draws x row formula; each behaviour is replayed into Database.panel/individualMap, BIOGEME.simulate, calculate_likelihood (scaled or not), get_value_c, with setPanel/setDataMap/sorted setData/setDraws at the engine boundary compared with the spec, and re-run on a permuted table.',
+   note='trusted: TLC; deterministic user-defined generators; four row formulas (general formulas are C01); positive row values (the operator multiplies through exp(sum log))',
+   technique='TLA+ spec PanelDraws + TLC enumeration of id sequences, spec->code replay incl. engine-boundary map and draw table', ref='5 C09'),
+ 'C10': dict(
+   text='PanelDraws.tla (non-panel mode) defines the Monte-Carlo operator as the mean over draws with every named draw variable replaced by the observation r-th draw of its own series, the series produced by the generator registered for its type, the table indexed [observation][draw][rank of name]; Calculus.tla defines Derive (partial derivative with respect to a parameter or a variable) and Integrate (Gaussian moments) on polynomial families; TLC checks the model identities and emits every case with its exact expected value; replayed into BIOGEME.simulate, calculate_likelihood, get_value_c, with the draw table crossing the engine boundary compared entry by entry; reproducibility under a non-zero seed is checked with native types.',
+   note='trusted: TLC; Integrate compared at 1e-6 (quadrature accuracy is the engine); integrand families are those of the spec',
+   technique='TLA+ specs PanelDraws/Calculus + TLC case generation, spec->code replay incl. engine-boundary draw table', ref='5 C10'),
 }
 
 def cmd(pid, tier):
